@@ -8,6 +8,9 @@ import (
 	"sort"
 	"strconv"
 	"strings"
+	"time"
+
+	"github.com/ava-labs/avalanchego/ids"
 
 	"github.com/ava-labs/hypersdk/chain"
 	"github.com/ava-labs/hypersdk/chain/chaintest"
@@ -47,10 +50,12 @@ func BalanceKeyOf(bh chain.BalanceHandler, a codec.Address) []byte {
 
 type C03Tx struct {
 	Prices, Units fees.Dimensions
+	UnitsErr      bool // the op line says `err`: Transaction.Units fails
 	Sponsor       codec.Address
 	Now, TS       int64
 	MaxFee        uint64
 	WrongChain    bool
+	BadAuth       bool // Auth.Verify fails (not part of the C03 line protocol)
 	AuthS, AuthE  int64
 	Scope         state.Keys
 	Actions       []*ScriptAction
@@ -71,7 +76,7 @@ func (t *C03Tx) Build(env *Env) (*chain.Transaction, error) {
 	if t.WrongChain {
 		base.ChainID[0] ^= 0xff
 	}
-	auth := &chaintest.TestAuth{NumComputeUnits: 1, ActorAddress: t.Sponsor, SponsorAddress: t.Sponsor, Start: t.AuthS, End: t.AuthE}
+	auth := &chaintest.TestAuth{NumComputeUnits: 1, ActorAddress: t.Sponsor, SponsorAddress: t.Sponsor, ShouldErr: t.BadAuth, Start: t.AuthS, End: t.AuthE}
 	return chain.NewTransaction(base, acts, auth)
 }
 
@@ -84,7 +89,9 @@ func ParseC03Tx(f []string) (*C03Tx, error) {
 	if t.Prices, err = ParseDims(f[1]); err != nil {
 		return nil, err
 	}
-	if t.Units, err = ParseDims(f[2]); err != nil {
+	if f[2] == "err" {
+		t.UnitsErr = true
+	} else if t.Units, err = ParseDims(f[2]); err != nil {
 		return nil, err
 	}
 	if t.Sponsor, err = ParseAddr(f[3]); err != nil {
@@ -176,7 +183,11 @@ func (t *C03Tx) Line() string {
 	if t.WrongChain {
 		cid = "1"
 	}
-	return fmt.Sprintf("tx %s %s %s %d %d %d %s %d:%d %s %s", DimsString(t.Prices), DimsString(t.Units),
+	us := DimsString(t.Units)
+	if t.UnitsErr {
+		us = "err"
+	}
+	return fmt.Sprintf("tx %s %s %s %d %d %d %s %d:%d %s %s", DimsString(t.Prices), us,
 		verifh.Hex(t.Sponsor[:]), t.Now, t.TS, t.MaxFee, cid, t.AuthS, t.AuthE, scopeString(t.Scope), t.ActionsRaw)
 }
 
@@ -353,6 +364,9 @@ func (g *c03gen) tx() *C03Tx {
 		if rng.Intn(60) == 0 {
 			a += fmt.Sprintf("@%d:-1", C03Now+1)
 		}
+		if rng.Intn(150) == 0 {
+			a += "^18446744073709551615" // compute units overflow: Transaction.Units fails
+		}
 		acts = append(acts, a)
 	}
 	t.ActionsRaw = "none"
@@ -361,7 +375,13 @@ func (g *c03gen) tx() *C03Tx {
 	} else {
 		t.Scope = state.Keys{}
 	}
-	// fill in the units from the real transaction
+	g.fillUnits(t)
+	return t
+}
+
+// fillUnits fills in the units from the real transaction.
+func (g *c03gen) fillUnits(t *C03Tx) {
+	t.UnitsErr = false
 	pt, err := ParseC03Tx(verifh.Fields(t.Line()))
 	if err != nil {
 		panic(err)
@@ -371,11 +391,7 @@ func (g *c03gen) tx() *C03Tx {
 		panic(err)
 	}
 	u, err := tx.Units(g.bh, g.env.Rules)
-	if err != nil {
-		panic(err)
-	}
-	t.Units = u
-	return t
+	t.Units, t.UnitsErr = u, err != nil
 }
 
 func (g *c03gen) sequence() []string {
@@ -413,6 +429,9 @@ func (g *c03gen) sequence() []string {
 	txs := make([]*C03Tx, n)
 	for i := range txs {
 		txs[i] = g.tx()
+		txs[i].Prices = txs[0].Prices // one block = one set of unit prices
+		txs[i].MaxFee = txs[i].MaxFee/8*8 + uint64(i) // distinct transactions (ids) within a block
+		g.fillUnits(txs[i])
 	}
 	if feeRelative {
 		k := BalanceKeyOf(g.bh, txs[0].Sponsor)
@@ -454,7 +473,7 @@ func (g *c03gen) sequence() []string {
 	for _, t := range txs {
 		lines = append(lines, t.Line())
 	}
-	return lines
+	return append(lines, "block")
 }
 
 // c03Corpus: hand-written witnesses run first on every run.
@@ -486,7 +505,7 @@ func (g *c03gen) corpus() []string {
 		l := mk(one, scope, acts)
 		pt, _ := ParseC03Tx(verifh.Fields(l))
 		fee := BigFee(pt.Prices, pt.Units).Uint64()
-		out = append(out, fmt.Sprintf("reset %s %s %s=%s,%s=0102", g.tag, keysString(g.allKey), sk, verifh.Hex(PutU64(fee+bal)), k1), l)
+		out = append(out, fmt.Sprintf("reset %s %s %s=%s,%s=0102", g.tag, keysString(g.allKey), sk, verifh.Hex(PutU64(fee+bal)), k1), l, "block")
 	}
 	// earlier actions delete and re-create the sponsor's own balance record and a plain key,
 	// then a later action fails: everything but the fee must be reverted (C04 witness shape)
@@ -550,9 +569,20 @@ func RunC03(r *verifh.Run, bh chain.BalanceHandler, tag string) {
 	}
 
 	var c *Chain
+	var seq []seqTx
+	rb := NewRealBlocks(bh)
 	for _, l := range lines {
 		f := verifh.Fields(l)
+		if len(f) == 1 && f[0] == "block" {
+			if c == nil {
+				r.Emit(l, "bad-op")
+				continue
+			}
+			runC03Block(r, rb, env, c, seq, tag, l)
+			continue
+		}
 		if len(f) == 4 && f[0] == "reset" {
+			seq = nil
 			if f[1] != tag {
 				r.Emit(l, "bad-op")
 				c = nil
@@ -580,7 +610,7 @@ func RunC03(r *verifh.Run, bh chain.BalanceHandler, tag string) {
 			continue
 		}
 		realUnits, uerr := tx.Units(bh, env.Rules)
-		if uerr != nil || realUnits != t.Units {
+		if (uerr != nil) != t.UnitsErr || (uerr == nil && realUnits != t.Units) {
 			r.Emit(l, fmt.Sprintf("units-mismatch real=%s err=%v", DimsString(realUnits), uerr))
 			r.Violation("harness-units", "units on the op line differ from Transaction.Units: %s", l)
 			continue
@@ -589,6 +619,7 @@ func RunC03(r *verifh.Run, bh chain.BalanceHandler, tag string) {
 		o := c.Process(ctx, env, bh, t.Prices, tx, t.Now)
 		r.Emit(l, c.OutcomeString(o)+" diff="+c.DiffString())
 		post := c.Visible()
+		seq = append(seq, seqTx{t: t, o: o, line: l})
 		r.Count("stage:" + o.Stage)
 		r.Count(fmt.Sprintf("nactions:%d", len(t.Actions)))
 
@@ -596,6 +627,16 @@ func RunC03(r *verifh.Run, bh chain.BalanceHandler, tag string) {
 		sk := BalanceKeyOf(bh, t.Sponsor)
 		if o.Stage != "ok" {
 			r.Count("err:" + o.Stage + ":" + ClassErr(o.Err))
+			if o.Stage == "exec" {
+				// PreExecute passed, Execute returned an error: by the model this happens exactly
+				// for a zero fee and a sponsor without a balance record
+				_, present := pre[string(sk)]
+				if !t.UnitsErr && BigFee(t.Prices, realUnits).Sign() == 0 && !present {
+					r.Count("exec-error:zero-fee-absent-sponsor")
+				} else {
+					r.Violation("execute-error-after-preexecute-ok", "PreExecute accepted but Execute returned %v (fee %s, sponsor record present=%v)", o.Err, BigFee(t.Prices, realUnits), present)
+				}
+			}
 			if !mapsEqual(pre, post) {
 				r.Violation("uncommitted-tx-changed-state", "tx returned %s error %v but the block state changed", o.Stage, o.Err)
 			}
@@ -678,9 +719,188 @@ func RunC03(r *verifh.Run, bh chain.BalanceHandler, tag string) {
 					r.Violation("failure-effects-not-reverted", "failed tx left action effects: got %s want %s", kvString(post), kvString(feeOnly))
 				}
 			}
-			if wrote || len(t.Actions[len(res.Outputs)].Steps) > 1 {
+			if wrote || (len(res.Outputs) < len(t.Actions) && len(t.Actions[len(res.Outputs)].Steps) > 1) {
 				r.Distinct("f:" + l)
 			}
 		}
 	}
+}
+
+// ---------------------------------------------------------------- the sequence as a real block
+
+type seqTx struct {
+	t    *C03Tx
+	o    TxOutcome
+	line string
+}
+
+// plainTiming: the tx can be re-signed relative to the wall clock without changing any of its
+// time-dependent checks (needed for Builder.BuildBlock, which uses time.Now()).
+func (t *C03Tx) plainTiming(window int64) bool {
+	off := t.TS - t.Now
+	if off < 5000 || off > window-5000 || off%1000 != 0 {
+		return false
+	}
+	if t.AuthS >= 0 || t.AuthE >= 0 {
+		return false
+	}
+	for _, a := range t.Actions {
+		if a.Start >= 0 || a.End >= 0 {
+			return false
+		}
+	}
+	return true
+}
+
+// runC03Block runs the transactions of the current sequence through the real
+// Processor.Execute and Builder.BuildBlock on the sequence's parent storage and compares with
+// what the one-by-one replay (c) produced.
+//   proc    = Processor.Execute on the block of the transactions that were committed one by one
+//   procall = Processor.Execute on the block of ALL transactions (any failing tx => invalid block)
+//   build   = Builder.BuildBlock with all transactions in the mempool (re-signed at wall-clock time)
+func runC03Block(r *verifh.Run, rb *RealBlocks, env *Env, c *Chain, seq []seqTx, tag, l string) {
+	if len(seq) > 0 {
+		for _, x := range seq[1:] {
+			if x.t.Prices != seq[0].t.Prices || x.t.Now != seq[0].t.Now {
+				r.Emit(l, "mixed")
+				return
+			}
+		}
+	}
+	var viol []func()
+	v := func(key, format string, a ...any) { viol = append(viol, func() { r.Violation(key, format, a...) }) }
+	prices, now := fees.Dimensions{}, C03Now
+	if len(seq) > 0 {
+		prices, now = seq[0].t.Prices, seq[0].t.Now
+	}
+	rules := BlockRules(prices)
+	fresh := func(t *C03Tx, ts int64) *chain.Transaction {
+		cp := *t
+		cp.TS = ts
+		cp.Actions = nil
+		if cp.ActionsRaw != "none" {
+			for _, as := range strings.Split(cp.ActionsRaw, "|") {
+				a, err := ParseScriptAction(as)
+				if err != nil {
+					panic(err)
+				}
+				cp.Actions = append(cp.Actions, a)
+			}
+		}
+		tx, err := cp.Build(env)
+		if err != nil {
+			panic(err)
+		}
+		return tx
+	}
+	var okTxs, allTxs []*chain.Transaction
+	var okRes []*chain.Result
+	allOk, plain := true, true
+	for _, x := range seq {
+		allTxs = append(allTxs, fresh(x.t, x.t.TS))
+		if x.o.Stage == "ok" {
+			okTxs = append(okTxs, fresh(x.t, x.t.TS))
+			okRes = append(okRes, x.o.Result)
+		} else {
+			allOk = false
+		}
+		plain = plain && x.t.plainTiming(env.Rules.GetValidityWindow())
+	}
+	want := c.Visible()
+
+	// ---- proc
+	pv := rb.Verify(rules, c.Base, now, okTxs)
+	proc := ErrTag(pv.Err)
+	if pv.Err == nil {
+		proc = fmt.Sprintf("ok n=%d state=%s", len(pv.Results), StateStringOf(c.Universe, pv.State))
+		if pv.Prices != prices {
+			v("harness-prices", "processor used unit prices %v, op lines say %v", pv.Prices, prices)
+		}
+		for i := range okRes {
+			if i < len(pv.Results) && !ResultsEqual(okRes[i], pv.Results[i]) {
+				v("processor-result-differs", "tx %d: Processor.Execute result %+v, one-by-one execution %+v", i, pv.Results[i], okRes[i])
+				break
+			}
+		}
+		if !mapsEqual(pv.State, want) {
+			v("success-effects-not-applied-in-block", "post-state of Processor.Execute %s differs from fee + action effects of its transactions %s", kvString(pv.State), kvString(want))
+		}
+	} else {
+		v("valid-block-rejected", "Processor.Execute rejects a block of transactions that each pay their fee: %v", pv.Err)
+	}
+
+	// ---- procall
+	procall := "ok"
+	if !allOk {
+		pa := rb.Verify(rules, c.Base, now, allTxs)
+		if pa.Err != nil {
+			procall = "err"
+		} else {
+			v("block-with-failing-tx-accepted", "Processor.Execute accepted a block containing a transaction whose PreExecute/Execute fails")
+		}
+	} else if pv.Err != nil {
+		procall = "err"
+	}
+
+	// ---- build
+	build := "na"
+	if plain {
+		base := (time.Now().UnixMilli() / 1000) * 1000
+		var btxs []*chain.Transaction
+		for _, x := range seq {
+			btxs = append(btxs, fresh(x.t, base+(x.t.TS-x.t.Now)))
+		}
+		built, ver := rb.Build(rules, c.Base, btxs)
+		if built.Err != nil {
+			build = "abort:" + ClassErr(built.Err)
+			explained := false
+			for _, x := range seq {
+				if x.o.Stage == "exec" && !x.t.UnitsErr && BigFee(x.t.Prices, x.t.Units).Sign() == 0 {
+					explained = true
+				}
+			}
+			if explained {
+				v("build-aborts-on-zero-fee-absent-sponsor", "Builder.BuildBlock returned %v: a zero-fee tx whose sponsor has no balance record passes PreExecute, Execute errors, and the whole build is aborted", built.Err)
+			} else {
+				v("build-aborted", "Builder.BuildBlock returned %v", built.Err)
+			}
+		} else {
+			in := map[ids.ID]bool{}
+			for _, tx := range built.Txs {
+				in[tx.GetID()] = true
+			}
+			flags := make([]string, len(seq))
+			same := true
+			for i, x := range seq {
+				flags[i] = "0"
+				if in[btxs[i].GetID()] {
+					flags[i] = "1"
+				}
+				if in[btxs[i].GetID()] != (x.o.Stage == "ok") {
+					same = false
+				}
+			}
+			build = "ok inc=" + strings.Join(flags, ",")
+			if len(flags) == 0 {
+				build = "ok inc=none"
+			}
+			if !same {
+				v("builder-includes-differ", "Builder.BuildBlock included %v, one-by-one execution committed a different set", flags)
+			}
+			switch {
+			case ver.Err != nil:
+				v("built-block-rejected", "Processor.Execute rejects the block the builder produced: %v", ver.Err)
+			case !mapsEqual(built.State, ver.State):
+				v("builder-verifier-state-differ", "builder post-state %s, verifier post-state %s", kvString(built.State), kvString(ver.State))
+			case same && !mapsEqual(built.State, want):
+				v("success-effects-not-applied-in-block", "post-state of the built block %s differs from fee + action effects of its transactions %s", kvString(built.State), kvString(want))
+			}
+		}
+	}
+	r.Emit(l, fmt.Sprintf("proc=%s procall=%s build=%s", proc, procall, build))
+	for _, f := range viol {
+		f()
+	}
+	r.Count("block-build:" + strings.SplitN(build, " ", 2)[0])
+	_ = tag
 }
